@@ -93,9 +93,12 @@ def job(spec):
             if min(dl) >= 0 and max(dl) < n:
                 for gulp in b["gulps"]:
                     path("stream", lambda: fil.dedisperse(dm, gulp=gulp, quiet=True), dl)
-                for (s, m) in b["windows"]:
-                    if s + m + max(dl) <= n:
-                        path("readdd", lambda: fil.read_dedisp_block(s, m, dm), dl, s=s, m=m)
+            # read_dedisp_block: every window whose dedispersed footprint lies in the file - delays of EITHER sign
+            # (negative DM, or a band whose first channel is not the reference end)
+            wins = list(b["windows"]) + [(max(0, -min(dl)), 2), (max(0, -min(dl)) + 1, 1)]
+            for (s, m) in wins:
+                if s + min(dl) >= 0 and s + m + max(dl) <= n and m >= 1:
+                    path("readdd", lambda: fil.read_dedisp_block(s, m, dm), dl, s=s, m=m)
             if pp != 0:
                 for steps in b["dmsteps"]:
                     def rows(valid):
